@@ -113,10 +113,15 @@ class Frame:
 
 
 def _has_yield(node: Any) -> bool:
-    for n in _walk_no_nested(node):
-        if isinstance(n, (ast.Yield, ast.YieldFrom)):
-            return True
-    return False
+    # memoised on the AST node itself (the node, hence the answer, lives as long as the source index of this run)
+    r = getattr(node, '_pyvc_has_yield', None)
+    if r is None:
+        r = any(isinstance(n, (ast.Yield, ast.YieldFrom)) for n in _walk_no_nested(node))
+        try:
+            node._pyvc_has_yield = r
+        except AttributeError:
+            pass
+    return r
 
 
 def _walk_no_nested(node: Any) -> Any:
@@ -437,8 +442,11 @@ class Interp:
             self.ctx.ex.stmt_all[c.key] = sorted({getattr(n, 'lineno', 0) for n in _walk_no_nested(node) if isinstance(n, ast.stmt)
                                                   and not (isinstance(n, ast.Expr) and isinstance(n.value, ast.Constant))})
         if not isinstance(node, ast.Lambda):
-            frame.loop_labels = loop_ordinals(node)
-            frame.br_labels = branch_ordinals(node)
+            lab = getattr(node, '_pyvc_labels', None)
+            if lab is None:
+                lab = (loop_ordinals(node), branch_ordinals(node))
+                node._pyvc_labels = lab  # keyed by id() of child nodes, which the function node keeps alive
+            frame.loop_labels, frame.br_labels = lab
         self.bind_args(c, frame, args, kwargs)
         self.depth += 1
         self.active.append(c.key)
